@@ -656,6 +656,79 @@ def d11_first_document_decides_the_format(chk: Check) -> None:
                      "last document's verdict)")
 
 
+def d12_formatless_documents_default_to_flow(chk: Check) -> None:
+    """With automatic output format a document that carries no format
+    attribute -- a scalar or an empty document -- is taken to be flow
+    (JSON) form, which sends it through the protective JSON round trip.
+    Folding the default away (`hasattr(...) and flow_style()`) makes such
+    documents YAML: a text scalar holding a `---` line is then written at
+    column 0 and comes back as extra documents."""
+    prog = chk.prog
+    chk.rule("C18-D12", "in Merger.prepare_for_dump the flow flag of a "
+             "document without a format attribute is True (initialised "
+             "True before the hasattr test)", floor=1)
+    fi = prog.func("Merger.prepare_for_dump")
+    tests = [t for t in walk_local(fi.node) if isinstance(t, ast.If) and
+             isinstance(t.test, ast.Call) and src(t.test.func) == "hasattr"
+             and any(isinstance(a, ast.Assign) and "flow_style" in src(a.value)
+                     for a in t.body)]
+    ok = None
+    for t in tests:
+        name = src([a for a in t.body if isinstance(a, ast.Assign)][0]
+                   .targets[0])
+        blk = parent(t)
+        for fld in ("body", "orelse"):
+            seq = getattr(blk, fld, None)
+            if isinstance(seq, list) and t in seq and seq.index(t) > 0:
+                prev = seq[seq.index(t) - 1]
+                if isinstance(prev, ast.Assign) and \
+                        src(prev.targets[0]) == name and \
+                        isinstance(prev.value, ast.Constant) and \
+                        prev.value.value is True:
+                    ok = t
+    if ok is not None:
+        chk.ok("C18-D12", fi, ok, "prepare_for_dump: default flow flag",
+               "True unless the document says otherwise")
+    else:
+        chk.fail("C18-D12", fi, fi.node, "prepare_for_dump: default flow "
+                 "flag",
+                 "a document without a format attribute (scalar, empty) is "
+                 "no longer treated as flow form: text scalars skip the "
+                 "JSON round trip and a `---` / `...` line inside one "
+                 "splits the output stream into more documents")
+
+
+def d13_merger_keeps_the_document_it_is_given(chk: Check) -> None:
+    """The `Merger.data` setter stores what it is given (comments aside).
+    An empty string is a document -- `--- ""` -- not "nothing": turning it
+    into None makes merge_with() skip it as an empty right-hand document,
+    so condense-all of [a], "", b yields [a, b] and the other modes lose
+    the document likewise."""
+    prog = chk.prog
+    chk.rule("C18-D13", "the data setter of Merger stores its parameter "
+             "without re-binding it", floor=1)
+    ci = prog.class_by_name("Merger")
+    st = prog.find_setter(ci, "data")
+    if st is None:
+        raise AnalysisError("Merger.data setter not found")
+    value = st.params()[1]
+    rebound = [x for x in walk_local(st.node) if isinstance(x, ast.Name) and
+               x.id == value and isinstance(x.ctx, ast.Store)]
+    stores = [a for a in walk_local(st.node) if isinstance(a, ast.Assign) and
+              src(a.targets[0]).startswith("self._")]
+    if rebound:
+        chk.fail("C18-D13", st, rebound[0], "Merger.data setter",
+                 "`{}` is replaced before it is stored: a document of some "
+                 "value (the empty string) becomes another (null) and is "
+                 "then skipped as an empty right-hand document".format(value))
+    elif stores and all(src(a.value) == value for a in stores):
+        chk.ok("C18-D13", st, stores[0], "Merger.data setter",
+               "stored as given")
+    else:
+        chk.fail("C18-D13", st, st.node, "Merger.data setter",
+                 "the parameter is not what is stored")
+
+
 def run(chk: Check) -> None:
     d1_routing(chk)
     d2_condense(chk)
@@ -668,6 +741,8 @@ def run(chk: Check) -> None:
     d8_only_null_is_skipped(chk)
     d10_end_of_stream_is_not_a_document(chk)
     d11_first_document_decides_the_format(chk)
+    d12_formatless_documents_default_to_flow(chk)
+    d13_merger_keeps_the_document_it_is_given(chk)
     # a Merger folds many right-hand documents into one left document:
     # conflict detection must look at the accumulated document each time
     from rules.c10 import d4_fresh_tables
